@@ -34,9 +34,10 @@ import (
 func init() {
 	RegisterSub("C07", "pure", RunC07Pure)
 	RegisterSub("C07", "files", RunC07Files)
+	RegisterSub("C07", "multi", RunC07Multi)
 }
 
-const c07Rule = "pure: hashed input or inserted hash list non-empty; files: the checked column chunk holds at least one non-null value and a filter"
+const c07Rule = "pure: hashed input or inserted hash list non-empty; files: the checked column chunk holds at least one non-null value and a filter; multi: the member row group holds at least one non-null value of the column and every member has a filter"
 
 // c07Batch pipelines driver requests with a callback per answer.
 type c07Batch struct {
@@ -154,7 +155,7 @@ func RunC07Pure(ctx *core.Ctx) {
 	ctx.SetRule(c07Rule)
 	if ctx.Replay != "" { // pure cases are a function of the seed: re-run the stream of the recorded seed
 		rf := c07ReadReplay(ctx)
-		if rf == nil || rf.Detail.Case != nil {
+		if rf == nil || rf.Detail.Case != nil || rf.Detail.MultiCase != nil {
 			return
 		}
 		ctx.Seed = rf.Seed
